@@ -108,13 +108,18 @@ pub fn replay_hist(ctx: &NetCtx, c: &Value, rep: &mut Report) {
         for (step, op) in ops.iter().enumerate() {
             let name = op["op"].as_str().unwrap();
             let mut add_outcome: Option<bool> = None;
+            let mut add_filter_outcome: Option<&str> = None;
             let r = guarded(|| {
                 match name {
                     "use" | "enable" | "disable" => obj.tags(name, &strs(&op["tags"])),
                     "add" => {
                         if let Obj::B(b, _) = &mut obj {
                             if let Ok(f) = NetworkFilter::parse(op["rule"].as_str().unwrap(), true, Default::default()) {
-                                let _ = b.add_filter(f);
+                                add_filter_outcome = Some(match b.add_filter(f) {
+                                    Ok(()) => "ok",
+                                    Err(adblock::blocker::BlockerError::FilterExists) => "exists",
+                                    Err(_) => "other-error",
+                                });
                             }
                         }
                     }
@@ -160,6 +165,16 @@ pub fn replay_hist(ctx: &NetCtx, c: &Value, rep: &mut Report) {
                 rep.mismatch(json!({"what": "hist-op", "history": ops_brief(ops, step), "opt": opt, "aggressive": aggressive,
                                     "observed": "panic", "panic": p, "devs": []}));
                 break;
+            }
+            if let Some(out) = add_filter_outcome {
+                let exists = op.get("exists").and_then(|b| b.as_bool()).unwrap_or(false);
+                // on an optimised engine the duplicate test is best effort
+                let allowed: Vec<&str> = if !exists { vec!["ok"] } else if opt { vec!["exists", "ok"] } else { vec!["exists"] };
+                rep.evaluations += 1;
+                if !allowed.contains(&out) {
+                    rep.mismatch(json!({"what": "add_filter-outcome", "mode": mode, "init": init, "history": ops_brief(ops, step), "opt": opt,
+                                        "observed": out, "allowed": allowed, "devs": []}));
+                }
             }
             if let Some(ok) = add_outcome {
                 rep.evaluations += 1;
